@@ -158,10 +158,12 @@ func genPolicy(r *Rng, s *Scenario) {
 	switch x := r.Intn(100); {
 	case x < 15:
 		s.Policy = PolicyCanonical
-	case x < 65:
+	case x < 55:
 		s.Policy = PolicyHashed
-	case x < 90:
+	case x < 73:
 		s.Policy = PolicyClass
+	case x < 90:
+		s.Policy = PolicyNode
 	default:
 		s.Policy = PolicyReverse
 	}
